@@ -16,6 +16,7 @@ static Fields gen(Tape &t) {
   u32s s = g_noise(t, /*wideExtras=*/true, &arm);
   f.set32("text", s);
   f.seti("arm", arm);
+  f.seti("locale", t.chance(15, 16) ? 0 : 1);  // one case in 16 runs under C.UTF-8
   return f;
 }
 
@@ -117,6 +118,7 @@ static Verdict check_text(const u32s &cps) {
 
 static Verdict check(const Fields &f) {
   stats().hit("arm=" + std::to_string(f.geti("arm", -1)));
+  LocaleArm loc(f.geti("locale") != 0);
   return check_text(f.get32("text"));
 }
 
